@@ -174,6 +174,29 @@ pub fn plain_renderer() -> Renderer {
     Renderer::new(false, false, 100)
 }
 
+/// "file:line" of a caught panic for signatures: repository-relative for code under test (also
+/// when a scratch copy of the repository is used), `<crate>-<version>/src/..` for dependencies.
+pub fn loc(p: &vcommon::Panicked) -> String {
+    let raw = match p.0.rsplit_once(" @ ") {
+        Some((_, l)) => l.to_string(),
+        None => return "?".into(),
+    };
+    let root = format!("{}/", vcommon::repo_root().to_string_lossy().trim_end_matches('/'));
+    if let Some(r) = raw.strip_prefix(&root) {
+        return r.to_string();
+    }
+    if let Some(r) = raw.strip_prefix("/repo/") {
+        return r.to_string();
+    }
+    if let Some(i) = raw.find("/registry/src/") {
+        let rest = &raw[i + "/registry/src/".len()..];
+        if let Some((_, r)) = rest.split_once('/') {
+            return r.to_string();
+        }
+    }
+    raw
+}
+
 // ---------------------------------------------------------------------------------------------
 // projection
 
